@@ -180,12 +180,27 @@ fn poly_ans(p: &Polynomial<RealSemiring>) -> Ans {
 }
 
 /// queries every d-DNNF pointer type supports
+/// One query in four of the kinds below is asked under a weight table *derived* from the run's table: the same table
+/// with the low and high weight of one variable (any of the n, chosen by the argument word) exchanged. Tables that
+/// agree almost everywhere are what a caller produces by editing a table between two queries; whatever a query
+/// remembers about "the" table it last saw must not leak into the answer for its neighbour.
+fn derived<T: rsdd::util::semirings::Semiring + Clone>(t: &WmcParams<T>, arg: i64, n: usize) -> Option<WmcParams<T>> {
+    if n == 0 || (arg >> 8) & 3 != 0 {
+        return None;
+    }
+    let v = VarLabel::new((mix(arg as u64, 0xd371) % n as u64) as u64);
+    let mut m = t.clone();
+    let (lo, hi) = m.var_weight(v).clone();
+    m.set_weight(v, hi, lo);
+    Some(m)
+}
+
 fn generic_query<'a, P: DDNNFPtr<'a>>(p: &P, q: i64, arg: i64, w: &Weights, n: usize) -> Option<Ans> {
     Some(match q {
-        Q_WMC_REAL => vec![p.unsmoothed_wmc(&w.real).0.to_bits()],
+        Q_WMC_REAL => vec![p.unsmoothed_wmc(derived(&w.real, arg, n).as_ref().unwrap_or(&w.real)).0.to_bits()],
         Q_WMC_FF_TINY => vec![p.unsmoothed_wmc(&w.tiny).value() as u64],
-        Q_WMC_FF_SMALL => vec![p.unsmoothed_wmc(&w.small).value() as u64],
-        Q_WMC_FF_LARGE => vec![p.unsmoothed_wmc(&w.large).value() as u64],
+        Q_WMC_FF_SMALL => vec![p.unsmoothed_wmc(derived(&w.small, arg, n).as_ref().unwrap_or(&w.small)).value() as u64],
+        Q_WMC_FF_LARGE => vec![p.unsmoothed_wmc(derived(&w.large, arg, n).as_ref().unwrap_or(&w.large)).value() as u64],
         Q_EVAL => {
             let a: Vec<bool> = (0..n).map(|v| bit(arg, v)).collect();
             vec![p.evaluate(&a) as u64]
@@ -201,10 +216,19 @@ fn generic_query<'a, P: DDNNFPtr<'a>>(p: &P, q: i64, arg: i64, w: &Weights, n: u
         }
         Q_WMC_POLY => poly_ans(&p.unsmoothed_wmc(&w.poly)),
         Q_COUNT_NODES => vec![p.count_nodes() as u64],
-        Q_SEMHASH => match arg % 3 {
-            0 => vec![p.semantic_hash(&create_semantic_hash_map::<{ primes::U32_TINY }>(n)).value() as u64],
-            1 => vec![p.semantic_hash(&create_semantic_hash_map::<{ primes::U32_SMALL }>(n)).value() as u64],
-            _ => vec![p.semantic_hash(&create_semantic_hash_map::<{ primes::U64_LARGEST }>(n)).value() as u64],
+        Q_SEMHASH => match arg.rem_euclid(3) {
+            0 => {
+                let m = create_semantic_hash_map::<{ primes::U32_TINY }>(n);
+                vec![p.semantic_hash(derived(&m, arg, n).as_ref().unwrap_or(&m)).value() as u64]
+            }
+            1 => {
+                let m = create_semantic_hash_map::<{ primes::U32_SMALL }>(n);
+                vec![p.semantic_hash(derived(&m, arg, n).as_ref().unwrap_or(&m)).value() as u64]
+            }
+            _ => {
+                let m = create_semantic_hash_map::<{ primes::U64_LARGEST }>(n);
+                vec![p.semantic_hash(derived(&m, arg, n).as_ref().unwrap_or(&m)).value() as u64]
+            }
         },
         _ => return None,
     })
@@ -953,7 +977,18 @@ impl World for QueryWorld {
             qw[Q_CONDITION_MODEL as usize] = 5;
             qw[Q_SMOOTH as usize] = 0;
         }
-        let len = if marathon { 70_000 + o.below(40_000) } else { 4 + o.below(if very_wide || td_big { 16 } else if thorough { 70 } else { 40 }) };
+        // every other very wide run is a "weight-table" run: mostly hashes and counts, a quarter of them under a table
+        // derived from the run's table by editing one of its 65-244 variables (see `derived`)
+        let table_run = very_wide && c.bool();
+        if table_run {
+            qw = [0u32; NQ];
+            qw[Q_SEMHASH as usize] = 6;
+            qw[Q_WMC_FF_LARGE as usize] = 3;
+            qw[Q_WMC_FF_SMALL as usize] = 2;
+            qw[Q_WMC_REAL as usize] = 3;
+            qw[Q_COUNT_NODES as usize] = 1;
+        }
+        let len = if marathon { 70_000 + o.below(40_000) } else if table_run { 16 + o.below(24) } else { 4 + o.below(if very_wide || td_big { 16 } else if thorough { 70 } else { 40 }) };
         for _ in 0..len {
             let caller = s.below(ncallers) as u8;
             if o.below(8) == 0 {
